@@ -651,6 +651,9 @@ Proof.
     rewrite frames_spawn. unfold all_frames in *. simpl.
     eapply armed_transfer; [ | | | | | exact Inv]; [apply same_ihr_refl | lia | apply same_rrs_refl | | intros r' _ _ _; rewrite count_app; lia].
     intros f Hf. apply in_app_iff in Hf. destruct Hf as [Hf|[<-|[]]]; [left; exact Hf | right; exact I].
+  - simpl in H. destruct (Nat.ltb r (length (s_rrs s))); [|discriminate]. inversion H; subst; clear H. unfold all_frames in *. simpl.
+    eapply armed_transfer; [ | | | | | exact Inv];
+      [apply same_ihr_refl | lia | apply same_rrs_setl; repeat split; (left; reflexivity) || (right; reflexivity) | intros f Hf; left; exact Hf | intros r' _ _ _; lia].
 Qed.
 
 Lemma init_nodes_rel : forall k j n, n_rel (getn (init_nodes k j) n) = false /\ n_hinv (getn (init_nodes k j) n) = None.
